@@ -129,6 +129,11 @@ Print Assumptions C15_code_computes_spec.
 Example C15_model_exists : is_ring exK /\ dmodel_ok exK exM.
 Proof. exact (conj exKr exM_ok). Qed.
 Print Assumptions C15_model_exists.
+(* a model whose derivations do not vanish: dual numbers over Qc, phi = first-order germs of exponentials *)
+Example C15_model_nontrivial :
+  is_ring dualK /\ dmodel_ok dualK dualM /\ m_D dualM AX (m_phi dualM o0 0) <> f0 dualK.
+Proof. exact (conj dualKr (conj dualM_ok dualM_nontrivial)). Qed.
+Print Assumptions C15_model_nontrivial.
 Example C15_equivb_separates : equivb (hess_doc AX AY) (hess_doc AY AX) = false.
 Proof. exact hess_not_sym_example. Qed.
 Print Assumptions C15_equivb_separates.
